@@ -865,7 +865,7 @@ class MasterSchemaRow:
         elif remaining_sql_command[0] == "`":
 
             # The table name or index name is surrounded by backticks
-            match_object = match("^`(.*?)`", remaining_sql_command)
+            match_object = match("^`((?:[^`]|``)*)`", remaining_sql_command)
 
             if not match_object:
                 log_message = "No backtick match found for {} name in sql for {} row name: {} and sql: {}."
@@ -874,9 +874,7 @@ class MasterSchemaRow:
                 raise MasterSchemaRowParsingError(log_message)
 
             # Set the parsed name and strip the backticks
-            parsed_name = remaining_sql_command[
-                match_object.start() : match_object.end()
-            ].strip("`")
+            parsed_name = match_object.group(1).replace("``", "`")
 
             # Set the remaining sql
             remaining_sql_command = remaining_sql_command[match_object.end() :]
@@ -887,7 +885,7 @@ class MasterSchemaRow:
         elif remaining_sql_command[0] == "'":
 
             # The table name or index name is surrounded by single quotes
-            match_object = match("^'(.*?)'", remaining_sql_command)
+            match_object = match("^'((?:[^']|'')*)'", remaining_sql_command)
 
             if not match_object:
                 log_message = "No single quote match found for {} name in sql for {} row name: {} and sql: {}."
@@ -896,9 +894,7 @@ class MasterSchemaRow:
                 raise MasterSchemaRowParsingError(log_message)
 
             # Set the parsed name and strip the single quotes
-            parsed_name = remaining_sql_command[
-                match_object.start() : match_object.end()
-            ].strip("'")
+            parsed_name = match_object.group(1).replace("''", "'")
 
             # Set the remaining sql
             remaining_sql_command = remaining_sql_command[match_object.end() :]
@@ -909,7 +905,7 @@ class MasterSchemaRow:
         elif remaining_sql_command[0] == '"':
 
             # The table name or index name is surrounded by double quotes
-            match_object = match('^"(.*?)"', remaining_sql_command)
+            match_object = match('^"((?:[^"]|"")*)"', remaining_sql_command)
 
             if not match_object:
                 log_message = "No double quote match found for {} name in sql for {} row name: {} and sql: {}."
@@ -918,9 +914,7 @@ class MasterSchemaRow:
                 raise MasterSchemaRowParsingError(log_message)
 
             # Set the parsed name and strip the double quotes
-            parsed_name = remaining_sql_command[
-                match_object.start() : match_object.end()
-            ].strip('"')
+            parsed_name = match_object.group(1).replace('""', '"')
 
             # Set the remaining sql
             remaining_sql_command = remaining_sql_command[match_object.end() :]
